@@ -467,7 +467,11 @@ class ProbeConstraints(BaseConstraints, ProbeBase):
         return weight * tv
 
     def _probe_center_of_mass_constraint(self, start_probe: torch.Tensor) -> torch.Tensor:
+        # one shift for the whole (mixed-state) probe, from the centre of mass of its total
+        # intensity: shifting every mode by its own centre of mass changes the overlaps between
+        # the modes, i.e. it undoes the orthogonalisation applied just before
         probe_int = torch.fft.fftshift(torch.abs(start_probe).square(), dim=(-2, -1))
+        probe_int = torch.sum(probe_int, dim=0, keepdim=True)
         # TODO -- move this to a util function
         y_coords = torch.arange(probe_int.shape[-2], device=probe_int.device)
         x_coords = torch.arange(probe_int.shape[-1], device=probe_int.device)
